@@ -121,10 +121,42 @@ func mutChain(t *Ty, v *Val) (out view.View, err error) {
 	return d, nil
 }
 
+// newView is the type's default through the typed New() constructor.
+func newView(t *Ty) view.View {
+	switch d := t.Def().(type) {
+	case view.UintMeta:
+		return d.New()
+	case view.BoolMeta:
+		return d.New()
+	case view.SmallByteVecMeta:
+		return d.New()
+	case *view.BasicListTypeDef:
+		return d.New()
+	case *view.BasicVectorTypeDef:
+		return d.New()
+	case *view.BitListTypeDef:
+		return d.New()
+	case *view.BitVectorTypeDef:
+		return d.New()
+	case *view.ComplexListTypeDef:
+		return d.New()
+	case *view.ComplexVectorTypeDef:
+		return d.New()
+	case *view.ContainerTypeDef:
+		return d.New()
+	case *view.UnionTypeDef:
+		return d.New()
+	}
+	return t.Def().Default(nil)
+}
+
 func c01Obs(t *Ty, v *Val, route string, h tree.HashFn) string {
 	return guard(func() string {
-		if route == "default" {
+		if route == "default" || route == "new" {
 			d := t.Def().Default(nil)
+			if route == "new" {
+				d = newView(t)
+			}
 			r := d.HashTreeRoot(h)
 			dn := t.Def().DefaultNode().MerkleRoot(h)
 			return "root=" + rootHex(r) + " dnode=" + rootHex(dn)
@@ -178,6 +210,11 @@ func TestC01(t *testing.T) {
 				}
 				obs := guardKV(func() string { return c01Obs(ty, v, route, h) })
 				out.emit(tag, "c01", []string{cfg, ty.Sexp(), vs, route}, obs)
+				if route == "default" {
+					// the typed New() constructors are the same default (same model case)
+					obs := guardKV(func() string { return c01Obs(ty, v, "new", h) })
+					out.emit(tag, "c01", []string{cfg, ty.Sexp(), vs, route}, obs)
+				}
 			}
 		})
 	}
